@@ -103,7 +103,10 @@ macro_rules! run_family {
 						if gb != &wt[..] {
 							return Ok(Some(fail("item_text", k, opn, format!("step {} ({}) yielded the wrong segment", k, opn), text, Some(wt), Some(gb.to_vec()))));
 						}
-						if off != wo {
+						// where a piece comes from is judged only when it is a slice of the path itself:
+						// a fixed constant with the right text (e.g. a static empty segment) is C20's business
+						let inside = off <= bytes.len() && off + gb.len() <= bytes.len();
+						if inside && off != wo {
 							return Ok(Some(fail("item_position", k, opn, format!("step {} ({}) yielded the right text from offset {} instead of {}", k, opn, off, wo), text, Some(wt), Some(gb.to_vec()))));
 						}
 					}
@@ -117,15 +120,19 @@ macro_rules! run_family {
 			}
 		} else {
 			// self-consistency of the double-ended normalized iterator + len()
-			let reference: Vec<(usize, usize)> = p.normalized_segments().map(|s| (s.as_bytes().as_ptr() as usize - base, s.as_bytes().len())).collect();
+			let reference: Vec<(usize, usize)> = p.normalized_segments().map(|s| ((s.as_bytes().as_ptr() as usize).wrapping_sub(base), s.as_bytes().len())).collect();
 			let mut model: VecDeque<(usize, usize)> = reference.iter().cloned().collect();
 			let mut it = p.normalized_segments();
 			if it.len() != model.len() {
 				return Ok(Some(fail("normalized_len", 0, "len", format!("normalized_segments().len() = {} but it yields {} items", it.len(), model.len()), text, None, None)));
 			}
 			// "the length reported by the normalized-segment iterator is consistent with that
-			// sequence": dot-segment removal on the independent '/'-split (RFC 3986 5.2.4 with
-			// Errata 4547, as C09 words it) leaves this many segments
+			// sequence": dot-segment removal on the independent '/'-split, segment by segment as
+			// C09 words it ('.' dropped; '..' removes the previous segment, is kept when the path
+			// is relative and nothing is left to remove, is dropped at the root of an absolute
+			// path) leaves this many segments. (This is the segment-wise rule, not the textual
+			// rendering of RFC 3986 5.2.4, which adds a trailing empty segment after a final dot
+			// segment.)
 			let want_len = {
 				let abs = bytes.first() == Some(&b'/');
 				let mut stack: Vec<&[u8]> = Vec::new();
@@ -155,7 +162,7 @@ macro_rules! run_family {
 				let got = if front { it.next() } else { it.next_back() };
 				let want = if front { model.pop_front() } else { model.pop_back() };
 				let opn = if front { "normalized.next" } else { "normalized.next_back" };
-				let gotr = got.map(|s| (s.as_bytes().as_ptr() as usize - base, s.as_bytes().len()));
+				let gotr = got.map(|s| ((s.as_bytes().as_ptr() as usize).wrapping_sub(base), s.as_bytes().len()));
 				if gotr != want {
 					return Ok(Some(fail("normalized_item", k, opn, format!("step {} ({}) yielded {:?}, the forward pass has {:?} there", k, opn, gotr, want), text, None, None)));
 				}
@@ -266,7 +273,20 @@ pub fn gen_case(rng: &mut Rng, stats: &mut IterStats) -> IterCase {
 	let sw = Swarm::draw(rng, iri);
 	let path = {
 		let mut g = Gen { rng, sw: &sw };
-		g.path(PathCtx::Standalone)
+		if g.rng.chance(1, 1200) {
+			// far beyond any inline buffer: hundreds to thousands of segments
+			let n = g.rng.range(100, 3000);
+			let mut s = String::from(*g.rng.pick(&["", "/", "//"]));
+			for i in 0..n {
+				if i > 0 {
+					s.push('/');
+				}
+				s.push_str(&g.segment());
+			}
+			s
+		} else {
+			g.path(PathCtx::Standalone)
+		}
 	};
 	let n = split_ranges(path.as_bytes()).len();
 	let steps = n + 3;
